@@ -595,15 +595,17 @@ Lemma sd_check_loop_spec i : cvrp_wf i -> forall acts dm rem u prev d0 pd,
   nth 0 dm 0 = d0 -> (forall j, (1 <= j)%nat -> nth j dm 0 = nth j rem 0) -> (d0 = - cap i \/ d0 = 0) ->
   (pd = true -> d0 = 0) -> (pd = true <-> prev = Some 0%nat) ->
   (sd_check_loop exact i dm u prev acts = true <->
-   (forall a, In a acts -> (a <= n_of i)%nat) /\ (d0 = 0 \/ In 0%nat acts) /\
+   (forall a, In a acts -> (a <= n_of i)%nat) /\
    no_early_double_depot rem (cap i) u pd acts = true /\ all_zero (greedy_rem rem (cap i) u acts) = true).
 Proof.
   intros Hwf acts. pose proof Hwf as [_ Hcap].
   induction acts as [|a r IH]; intros dm rem u prev d0 pd Hlr Hld Hr0 Hnn Hu Hd0 Hdm Hd0c Hpd Hprev.
   - cbn [sd_check_loop no_early_double_depot greedy_rem]. rewrite !all_zero_nth. split.
-    + intros H. split; [intros a []|]. split; [left; rewrite <- Hd0; apply H|]. split; [reflexivity|].
-      intros j. destruct j as [|j]; [exact Hr0|]. rewrite <- Hdm by lia. apply H.
-    + intros (_ & [H0|[]] & _ & H) j. destruct j as [|j]; [lia|]. rewrite Hdm by lia. apply H.
+    + intros H. split; [intros a []|]. split; [reflexivity|].
+      intros j. destruct j as [|j]; [exact Hr0|]. rewrite <- Hdm by lia. specialize (H j).
+      destruct dm as [|h t]; [cbn in Hld; lia | exact H].
+    + intros (_ & _ & H) j. specialize (H (S j)). rewrite <- Hdm in H by lia.
+      destruct dm as [|h t]; [cbn in Hld; lia | exact H].
   - cbn [sd_check_loop no_early_double_depot greedy_rem]. rewrite !rnd_exact.
     assert (Hazd : pd = true -> all_zero dm = all_zero rem).
     { intros Hp. specialize (Hpd Hp). apply eq_true_iff_eq. rewrite !all_zero_nth. split; intros H j.
@@ -623,10 +625,10 @@ Proof.
         - destruct prev as [[|k]|]; try reflexivity. exfalso. assert (false = true) by (apply Hprev; reflexivity). discriminate. }
       rewrite Hguard. change (forallb (fun d : Z => d =? 0) rem) with (all_zero rem).
       rewrite !andb_true_iff, IH. split.
-      * intros ((Hg & _) & (H1 & _ & H3 & H4)). split; [intros a [<-|Ha]; [lia | apply H1; exact Ha]|].
-        split; [right; left; reflexivity|]. split; [split; [exact Hg | exact H3] | exact H4].
-      * intros (H1 & _ & [Hg H3] & H4). split; [split; [exact Hg | reflexivity]|].
-        split; [intros a Ha; apply H1; right; exact Ha|]. split; [left; reflexivity|]. split; assumption.
+      * intros ((Hg & _) & (H1 & H3 & H4)). split; [intros a [<-|Ha]; [lia | apply H1; exact Ha]|].
+        split; [split; [exact Hg | exact H3] | exact H4].
+      * intros (H1 & [Hg H3] & H4). split; [split; [exact Hg | reflexivity]|].
+        split; [intros a Ha; apply H1; right; exact Ha|]. split; assumption.
     + pose proof Ea as Ea'. apply Nat.eqb_neq in Ea'.
       replace (match prev with Some 0%nat => true | _ => true end) with true by (destruct prev as [[|k]|]; reflexivity).
       cbn [andb]. destruct (Nat.leb a (n_of i)) eqn:Ela.
@@ -636,10 +638,8 @@ Proof.
       specialize (IH (set_nth a (nth a rem 0 - q) dm) (set_nth a (nth a rem 0 - q) rem) (u + q) (Some a) d0 false).
       rewrite IH.
       * split.
-        -- intros (H1 & H2 & H3 & H4). split; [intros b [<-|Hb]; [exact Ela | apply H1; exact Hb]|].
-           split; [destruct H2 as [H2|H2]; [left; exact H2 | right; right; exact H2]|]. split; assumption.
-        -- intros (H1 & H2 & H3 & H4). split; [intros b Hb; apply H1; right; exact Hb|].
-           split; [destruct H2 as [H2|[H2|H2]]; [left; exact H2 | congruence | right; exact H2]|]. split; assumption.
+        -- intros (H1 & H3 & H4). split; [intros b [<-|Hb]; [exact Ela | apply H1; exact Hb]|]. split; assumption.
+        -- intros (H1 & H3 & H4). split; [intros b Hb; apply H1; right; exact Hb|]. split; assumption.
       * rewrite set_nth_length. exact Hlr.
       * rewrite set_nth_length. exact Hld.
       * rewrite nth_set_nth_neq by lia. exact Hr0.
@@ -652,29 +652,29 @@ Proof.
       * split; [discriminate|]. intros H. inversion H. lia.
 Qed.
 
-(* The checker decides: existing nodes only; SOME DEPOT VISIT IN THE LIST (the depot column of its vector starts at
-   -capacity and is only cleared by a depot visit); no two consecutive depot visits while demand is unserved; all
-   demand served by the greedy decoding. *)
+(* The checker decides, for EVERY action list: existing nodes only; no two consecutive depot visits while demand is
+   unserved (its documented format restriction); all demand served by the greedy decoding.  (Before the repair 56d7d8e
+   of /repo it also demanded a depot visit somewhere in the list; that conjunct and the refutation witness of
+   completeness are recorded as fixed in known_findings.json.) *)
 Theorem sdvrp_checker_iff i acts :
-  cvrp_wf i -> sd_solvable i ->
+  cvrp_wf i ->
   (sd_checker exact i acts = true <->
-   (forall a, In a acts -> (a <= n_of i)%nat) /\ In 0%nat acts /\
+   (forall a, In a acts -> (a <= n_of i)%nat) /\
    no_early_double_depot (rem0 i) (cap i) 0 false acts = true /\ all_zero (greedy_rem (rem0 i) (cap i) 0 acts) = true).
 Proof.
-  intros Hwf Hsol. unfold sd_solvable in Hsol. unfold sd_checker.
+  intros Hwf. unfold sd_checker.
   pose proof (sd_check_loop_spec i Hwf acts ((- cap i) :: dem i) (rem0 i) 0 None (- cap i) false) as H.
   specialize (H eq_refl eq_refl eq_refl (fun j => dem_nth_nonneg i j Hwf) ltac:(destruct Hwf; lia) eq_refl).
   specialize (H ltac:(intros j Hj; destruct j; [lia | reflexivity]) (or_introl eq_refl) ltac:(discriminate) ltac:(split; discriminate)).
-  rewrite H. split; intros (H1 & H2 & H3 & H4); repeat split; auto. destruct H2; [lia | assumption].
+  exact H.
 Qed.
 
 (* accepted => the decoded plan solves the split-delivery problem (visits that deliver nothing are not excluded) *)
 Theorem sdvrp_checker_sound i acts :
-  cvrp_wf i -> sd_solvable i -> sd_checker exact i acts = true ->
-  sd_plan_ok (n_of i) (demand i) (cap i) (sd_plan i acts) /\ In 0%nat acts.
+  cvrp_wf i -> sd_checker exact i acts = true ->
+  sd_plan_ok (n_of i) (demand i) (cap i) (sd_plan i acts).
 Proof.
-  intros Hwf Hsol Hc. apply (sdvrp_checker_iff i acts Hwf Hsol) in Hc as (Hrng & H0 & _ & Hz).
-  split; [|exact H0]. pose proof Hwf as [_ Hcap].
+  intros Hwf Hc. apply (sdvrp_checker_iff i acts Hwf) in Hc as (Hrng & _ & Hz). pose proof Hwf as [_ Hcap].
   destruct (greedy_facts (n_of i) (cap i) Hcap acts (rem0 i) 0) as (H1 & (h & t & Hpr & Hh & Ht) & H3 & _); auto; try lia.
   { intros j. apply (dem_nth_nonneg i j Hwf). }
   fold (sd_plan i acts) in *. split; [exact H1|]. split.
@@ -682,20 +682,23 @@ Proof.
   - intros j Hj. specialize (H3 j ltac:(lia)). rewrite all_zero_nth in Hz. rewrite Hz, rem0_demand in H3 by lia. lia.
 Qed.
 
-(* a solution of the problem in the checker's format -- it contains a depot visit and has no early double depot --
-   is accepted *)
+Lemma plan_range_acts i acts : (forall v, In v (sd_plan i acts) -> (fst v <= n_of i)%nat) -> forall a, In a acts -> (a <= n_of i)%nat.
+Proof.
+  unfold sd_plan. generalize (rem0 i) 0. induction acts as [|b r IH]; intros rem load Hrng a Ha; [destruct Ha|].
+  cbn [greedy] in Hrng. destruct (Nat.eqb b 0) eqn:Eb.
+  - destruct Ha as [<-|Ha]; [apply Nat.eqb_eq in Eb; lia|]. apply (IH rem 0); [intros v Hv; apply Hrng; right; exact Hv | exact Ha].
+  - destruct Ha as [<-|Ha]; [apply (Hrng _ (or_introl eq_refl))|]. eapply IH; [intros v Hv; apply Hrng; right; exact Hv | exact Ha].
+Qed.
+
+(* every solution of the problem without an early double depot is accepted -- with or without a depot visit *)
 Theorem sdvrp_checker_complete i acts :
-  cvrp_wf i -> sd_solvable i ->
+  cvrp_wf i ->
   sd_plan_ok (n_of i) (demand i) (cap i) (sd_plan i acts) ->
-  In 0%nat acts -> no_early_double_depot (rem0 i) (cap i) 0 false acts = true ->
+  no_early_double_depot (rem0 i) (cap i) 0 false acts = true ->
   sd_checker exact i acts = true.
 Proof.
-  intros Hwf Hsol (Hrng & _ & Hdel) H0 Hdd. apply (sdvrp_checker_iff i acts Hwf Hsol). pose proof Hwf as [_ Hcap].
-  assert (Hr : forall a, In a acts -> (a <= n_of i)%nat).
-  { intros a Ha. clear -Hrng Ha. unfold sd_plan in Hrng. revert Hrng Ha. generalize (rem0 i) 0. induction acts as [|b r IH]; intros rem load Hrng Ha; [destruct Ha|].
-    cbn [greedy] in Hrng. destruct (Nat.eqb b 0) eqn:Eb.
-    - destruct Ha as [<-|Ha]; [apply Nat.eqb_eq in Eb; lia|]. apply (IH rem 0); [intros v Hv; apply Hrng; right; exact Hv | exact Ha].
-    - destruct Ha as [<-|Ha]; [apply (Hrng _ (or_introl eq_refl))|]. eapply IH; [intros v Hv; apply Hrng; right; exact Hv | exact Ha]. }
+  intros Hwf (Hrng & _ & Hdel) Hdd. apply (sdvrp_checker_iff i acts Hwf). pose proof Hwf as [_ Hcap].
+  pose proof (plan_range_acts i acts Hrng) as Hr.
   repeat split; auto.
   destruct (greedy_facts (n_of i) (cap i) Hcap acts (rem0 i) 0) as (_ & _ & H3 & H4 & H5 & H6); auto; try lia.
   { intros j. apply (dem_nth_nonneg i j Hwf). }
@@ -705,30 +708,55 @@ Proof.
   - apply Nat.ltb_ge in Ej. apply nth_overflow. lia.
 Qed.
 
-Corollary sdvrp_checker_rejects_unserved i acts j :
-  cvrp_wf i -> sd_solvable i -> (1 <= j <= n_of i)%nat -> delivered_to j (sd_plan i acts) <> demand i j ->
-  sd_checker exact i acts = false.
+(* mask-made action lists have no early double depot: the depot is offered at the depot only when nothing is left *)
+Lemma sd_adm_no_early_dd i : cvrp_wf i -> sd_solvable i -> forall acts p s pd,
+  SInv i p s -> (pd = true -> scur s = 0%nat) -> adm_from (E:=SD) i s acts = true ->
+  no_early_double_depot (sdwd s) (cap i) (sused s) pd acts = true.
 Proof.
-  intros Hwf Hsol Hj Hn. apply not_true_iff_false. intros Hc.
-  destruct (sdvrp_checker_sound i acts Hwf Hsol Hc) as ((_ & _ & Hd) & _). apply Hn. apply Hd. exact Hj.
-Qed.
-Corollary sdvrp_checker_rejects_unknown_node i acts a :
-  cvrp_wf i -> sd_solvable i -> In a acts -> (n_of i < a)%nat -> sd_checker exact i acts = false.
-Proof.
-  intros Hwf Hsol Ha Hn. apply not_true_iff_false. intros Hc.
-  apply (sdvrp_checker_iff i acts Hwf Hsol) in Hc as (Hrng & _). specialize (Hrng a Ha). lia.
+  intros Hwf Hsol acts. unfold sd_solvable in Hsol. induction acts as [|a r IH]; intros p s pd HI Hpd Hadm; [reflexivity|].
+  cbn [adm_from no_early_double_depot] in *. apply andb_prop in Hadm as [Ho Hadm].
+  pose proof (sd_step_inv i p s a Hwf HI Ho) as HI1. cbn [step SDVRP] in *.
+  destruct (Nat.eqb a 0) eqn:Ea.
+  - apply Nat.eqb_eq in Ea. subst a. apply andb_true_intro. split.
+    + destruct pd; [|reflexivity]. specialize (Hpd eq_refl).
+      rewrite sd_offered_depot in Ho. apply negb_true_iff in Ho. unfold sd_mask_depot in Ho. rewrite Hpd in Ho. cbn [Nat.eqb andb] in Ho.
+      change (all_zero (sdwd s) = true). apply all_zero_nth. intros j.
+      destruct (Nat.ltb j (S (n_of i))) eqn:Ej.
+      * apply Nat.ltb_lt in Ej. destruct j as [|j]; [apply (sinv_d0 _ _ _ HI)|].
+        destruct (Z.eq_dec (nth (S j) (sdwd s) 0) 0) as [|Hne]; [assumption|]. exfalso.
+        assert (existsb (fun j0 => negb (sd_mask_loc i s j0)) (sd_locs i) = true) as Hex.
+        { apply existsb_exists. exists (S j). split; [apply in_seq; lia|].
+          unfold sd_mask_loc. rewrite (sinv_cur0 _ _ _ HI Hpd). apply negb_true_iff, orb_false_iff. split; lia. }
+        congruence.
+      * apply Nat.ltb_ge in Ej. apply nth_overflow. rewrite (sinv_len _ _ _ HI). lia.
+    + specialize (IH (p ++ [0%nat]) _ true HI1 ltac:(reflexivity) Hadm).
+      rewrite (sd_depot_dwd i p s HI) in IH. cbn [sd_step sused Nat.eqb] in IH. exact IH.
+  - specialize (IH (p ++ [a]) _ false HI1 ltac:(discriminate) Hadm).
+    cbn [sd_step sdwd sused] in IH. unfold sd_delivered in IH. rewrite Ea, !rnd_exact in IH. exact IH.
 Qed.
 
-(* FINDING (faithful model): a solution that serves everything in ONE route and is not followed by a depot visit --
-   exactly what the mask produces for a row that is not padded -- is rejected, because the checker's final test
-   `(demands == 0).all()` includes the depot column, which still holds -capacity. *)
-Theorem sdvrp_checker_single_route_refuted :
-  exists i acts, cvrp_wf i /\ sd_solvable i /\ adm (E:=SD) i acts = true /\ done SD i (run (E:=SD) i acts) = true /\
-                 sd_plan_ok (n_of i) (demand i) (cap i) (sd_plan i acts) /\ sd_checker exact i acts = false.
+(* ... hence every completed mask-made episode is accepted, padded or not, with or without a depot visit
+   (C01 + completeness) *)
+Corollary sdvrp_checker_accepts_mask_made i acts :
+  cvrp_wf i -> sd_solvable i -> adm (E:=SD) i acts = true -> done SD i (run (E:=SD) i acts) = true ->
+  sd_checker exact i acts = true.
 Proof.
-  exists {| dem := [3; 4]; cap := 8; dist := []; tol := 0 |}, [1; 2]%nat.
-  split; [apply cvrp_wfb_ok; reflexivity|]. split; [reflexivity|]. split; [reflexivity|]. split; [reflexivity|].
-  split; [apply sd_plan_okb_ok; reflexivity | reflexivity].
+  intros Hwf Hsol Hadm Hd. apply sdvrp_checker_complete; [exact Hwf | apply sdvrp_mask_sound; assumption |].
+  apply (sd_adm_no_early_dd i Hwf Hsol acts [] (sd_reset i) false (sd_reset_inv i Hwf)); [discriminate | exact Hadm].
+Qed.
+
+Corollary sdvrp_checker_rejects_unserved i acts j :
+  cvrp_wf i -> (1 <= j <= n_of i)%nat -> delivered_to j (sd_plan i acts) <> demand i j ->
+  sd_checker exact i acts = false.
+Proof.
+  intros Hwf Hj Hn. apply not_true_iff_false. intros Hc.
+  destruct (sdvrp_checker_sound i acts Hwf Hc) as (_ & _ & Hd). apply Hn. apply Hd. exact Hj.
+Qed.
+Corollary sdvrp_checker_rejects_unknown_node i acts a :
+  cvrp_wf i -> In a acts -> (n_of i < a)%nat -> sd_checker exact i acts = false.
+Proof.
+  intros Hwf Ha Hn. apply not_true_iff_false. intros Hc.
+  apply (sdvrp_checker_iff i acts Hwf) in Hc as (Hrng & _). specialize (Hrng a Ha). lia.
 Qed.
 
 (* executable twins for the harness: [slack] relaxes the equalities/inequalities (0 = the specification itself) *)
